@@ -476,6 +476,10 @@ def rules(rep, facts):
     r4_truncation(rep, facts)
     r5_printer(rep, facts)
     r7_shapes(rep, facts)
+    if g is not None:
+        from .rules_c01 import r2_ranges
+        r2_ranges(rep, g, a)
+        rep.relabel('C01/R2', 'C12/R2b', 'the document grammar applies the same field ranges and calendar: ')
     dfeats = set(facts.crates['toml_datetime'].get('features', []))
     if 'serde' in dfeats and 'toml_edit' in facts.crates and 'serde' in feats:
         r6_bridge(rep, facts)
